@@ -233,7 +233,10 @@ CLAIMED = {
                  'of its own that reported success; with C04 saves(n) ≤ 1 + invalidations(n), and a node outside every recurrent '
                  'subgraph is saved at most once per run, whoever requests it (C19_each_save_has_its_own_successful_execution, '
                  'C19_at_most_one_save_outside_recurrent_subgraphs). At-least-once (every executed node of a successful run is '
-                 'saved) is tied, not a theorem. '
+                 'saved) is tied, not a theorem; a node is executed once its successful on_node_complete has been delivered — a node whose '
+                 'task is cancelled by the end of the run while that announcement is still suspended in an event manager never '
+                 'stored or delivered a value and has nothing to save (decided from the trace: second manager not told, task '
+                 'cancelled, no consumer started). '
                  'Recurrent re-iterations re-save inner nodes: listed finding. A save still suspended when chart.run ends is '
                  'cancelled with its node task (the result is stored before the save is awaited): listed finding save_cut_off, '
                  'excused only at that call site.', '§6 C19'),
